@@ -211,14 +211,15 @@ def analyse_printer(repo: str, use_cache: bool = True) -> List[dict]:
             if parent == "FactorialExpression" and c not in ("Const", "NegConst"):
                 continue  # the parser and the rules only ever build the factorial of a literal
             tasks.append((str(prog.repo), parent, (c,)))
-    nproc = min(16, os.cpu_count() or 1)
+    nproc = min(int(os.environ.get("VERIF_JOBS", "16")), os.cpu_count() or 1)
     ctx = mp.get_context("fork")
     with ctx.Pool(nproc) as pool:
         recs = pool.map(_worker, tasks, chunksize=8)
     try:
         cache.parent.mkdir(exist_ok=True)
-        for old in cache.parent.glob("printcases-*.json"):
-            old.unlink()
+        if str(prog.repo) == "/repo":
+            for old in cache.parent.glob("printcases-*.json"):
+                old.unlink()
         cache.write_text(json.dumps(recs))
     except Exception:
         pass
